@@ -9,27 +9,40 @@ From OC Require Import Base.Bytes Model.Merge.
 Import ListNotations.
 Open Scope N_scope.
 
-(* store(ctx, store, values):
+(* store(ctx, store, values) (repaired, 3126412):
      pruned := tree.PrunePathMap(values, true)
      for _, pv := range values {
         entry, err := store.Get(pv.Path)
-        not found:            if pruned has pv.Path { Insert(pv.Path, pv) }
+        not found:            if pruned has pv.Path { Insert(pv.Path, pv); clearDeletedAncestors(pv) }
         found, not in pruned: Remove(pv.Path)
-        found, in pruned:     if pv.Index != entry.Value.Index { Update(pv.Path, pv) }
+        found, in pruned:     if pv.Index != entry.Value.Index { Update(pv.Path, pv); clearDeletedAncestors(pv) }
      }
      Commit()
-   all reads see the map as it was before the transaction; keys not named by `values` are not touched *)
-Definition store_step (atomix pruned : cfgmap) (acc : cfgmap) (pv : path_value) : cfgmap :=
+   clearDeletedAncestors(pv): for a live pv, every ancestor at a path element boundary that is not a key of
+   `values` and is stored as a tombstone is removed.
+   All reads see the map as it was before the transaction; other keys are not touched *)
+Definition clear_deleted_ancestors (atomix values : cfgmap) (pv : path_value) (acc : cfgmap) : cfgmap :=
+  if pv_deleted pv then acc else
+  fold_left (fun a anc =>
+               if map_has anc values then a else
+               match map_get anc atomix with
+               | Some e => if pv_deleted e then map_del anc a else a
+               | None => a
+               end) (boundary_ancestors (pv_path pv)) acc.
+
+Definition store_step (atomix pruned values : cfgmap) (acc : cfgmap) (pv : path_value) : cfgmap :=
   match map_get (pv_path pv) atomix with
-  | None => if map_has (pv_path pv) pruned then map_set (pv_path pv) pv acc else acc
+  | None => if map_has (pv_path pv) pruned
+            then clear_deleted_ancestors atomix values pv (map_set (pv_path pv) pv acc) else acc
   | Some e =>
     if negb (map_has (pv_path pv) pruned) then map_del (pv_path pv) acc
-    else if negb (pv_index pv =? pv_index e) then map_set (pv_path pv) pv acc
+    else if negb (pv_index pv =? pv_index e)
+         then clear_deleted_ancestors atomix values pv (map_set (pv_path pv) pv acc)
     else acc
   end.
 
 Definition store_write (atomix values : cfgmap) : cfgmap :=
-  fold_left (store_step atomix (prune_path_map values true)) (map snd values) atomix.
+  fold_left (store_step atomix (prune_path_map values true) values) (map snd values) atomix.
 
 (* reconcileCommit + configurations.Update on the committed map alone (inline copies left aside) *)
 Definition persist_commit (atomix : cfgmap) (index : N) (change : cfgmap) : cfgmap :=
